@@ -190,13 +190,21 @@ namespace foonathan
                     if (!mem)
                     {
                         // reserve more then the default capacity if that didn't work either
-                        detail::check_allocation_size<bad_array_size>(
-                            count * node_size,
-                            [&] { return next_capacity() - pool.alignment() + 1; }, info());
-
                         // the array occupies whole nodes of the pool, which can be bigger than node_size
                         auto no_nodes = count * node_size / pool.node_size()
                                         + (count * node_size % pool.node_size() != 0u ? 1u : 0u);
+                        // in a fresh block the reservation is surrounded by debug fences (if any)
+                        // and padded behind the first one
+                        const auto overhead =
+                            2 * detail::debug_fence_size
+                            + (detail::debug_fence_size % detail::max_alignment == 0u ?
+                                   0u :
+                                   detail::max_alignment);
+                        detail::check_allocation_size<bad_array_size>(
+                            no_nodes * pool.node_size(),
+                            [&] { return next_capacity() - overhead - pool.alignment() + 1; },
+                            info());
+
                         block = reserve_memory(pool, no_nodes * pool.node_size());
                         pool.insert(block.memory, block.size);
 
